@@ -108,6 +108,28 @@ fn first_diff(a: &Value, b: &Value, path: String) -> Option<String> {
     }
 }
 
+/// parent with two assertions of the same label (label, label__1) plus a third; the child redacts ONLY label__1
+pub fn sign_redaction() -> Option<(Vec<u8>, &'static str)> {
+    let fmt = "image/jpeg";
+    let src = fixture("no_manifest.jpg");
+    let mut def = simple_manifest_json("c02 redaction parent", fmt);
+    let a = def["assertions"].as_array_mut()?;
+    a.push(json!({"label": "org.vh.dup", "data": {"n": 1111, "pad": "aaaaaaaaaaaaaaaaaaaaaaaaaaaaaaaa"}}));
+    a.push(json!({"label": "org.vh.dup", "data": {"n": 2222, "pad": "bbbbbbbbbbbbbbbbbbbbbbbbbbbbbbbb"}}));
+    let parent = sign_bytes(ctx(&Value::Null), &def, fmt, &src, "ed25519").ok()?;
+    let plabel = Reader::from_context(ctx(&Value::Null)).with_stream(fmt, Cursor::new(parent.clone())).ok()?.active_label()?.to_string();
+    let uri = format!("self#jumbf=/c2pa/{plabel}/c2pa.assertions/org.vh.dup__1");
+    let cdef = json!({"title": "c02 redaction child", "format": fmt, "claim_generator_info": [{"name": "vh", "version": "0.1"}], "redactions": [uri],
+        "assertions": [{"label": "c2pa.actions", "data": {"actions": [{"action": "c2pa.redacted", "reason": "testing", "parameters": {"redacted": uri}}]}}]});
+    let mut b = Builder::from_context(ctx(&Value::Null)).with_definition(cdef.to_string().as_str()).ok()?;
+    b.set_intent(c2pa::BuilderIntent::Edit);
+    b.add_ingredient_from_stream(json!({"title": "parent", "relationship": "parentOf"}).to_string(), fmt, &mut Cursor::new(parent.clone())).ok()?;
+    let s = signer("ed25519");
+    let mut o = Cursor::new(Vec::new());
+    b.sign(s.as_ref(), fmt, &mut Cursor::new(parent), &mut o).ok()?;
+    Some((o.into_inner(), fmt))
+}
+
 fn observe(fmt: &str, asset: &[u8], store: &[u8], base: &Value) -> (String, bool, String) {
     match catch(std::panic::AssertUnwindSafe(|| Reader::from_context(ctx(&Value::Null)).with_manifest_data_and_stream(store, fmt, Cursor::new(asset.to_vec())))) {
         Ok(Ok(r)) => {
@@ -128,9 +150,10 @@ pub fn record(args: &[String]) {
     let every = args.iter().any(|a| a == "--every");
     let mut rng = StdRng::seed_from_u64(seed ^ 0xC02);
     let mut out = Out::new();
-    let shapes: Vec<(&str, usize, bool, bool)> = vec![("single", 0, false, false), ("parent1+component", 1, true, false), ("parent2", 2, false, false), ("update", 1, false, true)];
+    let shapes: Vec<(&str, usize, bool, bool)> = vec![("single", 0, false, false), ("parent1+component", 1, true, false), ("parent2", 2, false, false), ("update", 1, false, true), ("redaction", 9, false, false)];
     for (name, depth, comp, upd) in shapes {
-        let Some((asset, fmt)) = sign_chain(depth, comp, upd) else { out.emit(&json!({"shape": name, "setup_error": "could not sign"})); continue };
+        let signed = if name == "redaction" { sign_redaction() } else { sign_chain(depth, comp, upd) };
+        let Some((asset, fmt)) = signed else { out.emit(&json!({"shape": name, "setup_error": "could not sign"})); continue };
         let Ok(store) = c2pa::jumbf_io::load_jumbf_from_memory(fmt, &asset) else { out.emit(&json!({"shape": name, "setup_error": "no store"})); continue };
         let base = match Reader::from_context(ctx(&Value::Null)).with_manifest_data_and_stream(&store, fmt, Cursor::new(asset.clone())) {
             Ok(r) => json!({"report": report(&r), "codes": codes(&r)}),
